@@ -111,11 +111,27 @@ impl Property for C09 {
         })]
     }
     fn run_case(&self, _ctx: &Ctx, case: &Case) -> Verdict {
-        let Some(p) = program_of(case) else { return Verdict::Skip("malformed-case") };
-        let mut rng = Rng::new(digest(case));
+        // explicit files (hand-written regression cases) or a generated program
+        let named: Vec<(String, String)> = if case["kind"] == "files-lsp" {
+            let Some(m) = case["files"].as_object() else { return Verdict::Skip("malformed-case") };
+            let mut v: Vec<(String, String)> = m.iter().map(|(k, v)| (k.clone(), v.as_str().unwrap_or("").to_string())).collect();
+            v.sort_by_key(|f| f.0 != "root.td");
+            if v.first().map(|f| f.0 != "root.td").unwrap_or(true) {
+                return Verdict::Skip("malformed-case");
+            }
+            v
+        } else {
+            let Some(p) = program_of(case) else { return Verdict::Skip("malformed-case") };
+            let mut rng = Rng::new(digest(case));
+            p.files.iter().map(|(n, t)| (n.clone(), restyle(t, &mut rng, true))).collect()
+        };
+        struct Names {
+            files: Vec<(String, String)>,
+        }
+        let p = Names { files: named.clone() };
         let tw = TempWs::new();
-        let files: Vec<(String, String)> = p.files.iter().map(|(n, t)| (tw.abs(n), restyle(t, &mut rng, true))).collect();
-        for ((n, _), (_, t)) in p.files.iter().zip(&files) {
+        let files: Vec<(String, String)> = named.iter().map(|(n, t)| (tw.abs(n), t.clone())).collect();
+        for (n, t) in &named {
             tw.write(n, t);
         }
         let ws = Workspace::new(&files, &files[0].0);
